@@ -353,6 +353,15 @@ class C04(Check):
         if cfg["sched"].get("policy") == "walk" and rng.random() < 0.5:
             cfg["sched"]["stall_p"] = rng.choice([0.005, 0.02, 0.05])
         add_flaky_serdes(cfg, rng, 0.2)  # a recorded outcome that cannot be decoded must not make the function run again
+        # how the function is handed to the SDK and which class it raises are dimensions too: more @durable_step-decorated
+        # steps, and TypeError (the class that binding errors share with errors inside the body) among the failures
+        for st in oracles.statements(cfg["program"]).values():
+            if st["op"] == "step" and "fserdes" not in st:
+                if rng.random() < 0.25:
+                    st["deco"] = True
+                for a_ in (st.get("fn") or {}).get("attempts") or []:
+                    if a_.get("do") == "raise" and a_.get("cls") in gen.USER_ERRS and rng.random() < 0.15:
+                        a_["cls"] = "TypeError"
 
     def fault_plans(self, rng, st, prof, tier, cfg, w):
         plans = []
